@@ -403,8 +403,11 @@ def scan_lexicons(source: AnyPath) -> list[ScanInfo]:
         b'''\\b(id|version|label)=("[^"]*"|'[^']*')''', flags=re.M
     )
 
+    # comments and CDATA sections may contain text that looks like tags
+    ignore_re = re.compile(b'<!--.*?-->|<!\\[CDATA\\[.*?\\]\\]>', flags=re.S)
+
     with open(source, 'rb') as fh:
-        for m in lex_re.finditer(fh.read()):
+        for m in lex_re.finditer(ignore_re.sub(b'', fh.read())):
             lextype, remainder = m.groups()
             attrs = {
                 _m.group(1).decode("utf-8"):
